@@ -136,6 +136,8 @@ structure Variant where
   noXmlnsAvt : Bool := false
   /-- `C14-no-alias-for-xsl-attribute.diff`: xsl:attribute's own namespace table is not aliased -/
   attrNoAlias : Bool := false
+  /-- `C14-copied-attribute-prefix-declared.diff`: a copied namespaced attribute gets its prefix declared / re-prefixed -/
+  copyAttrNs : Bool := false
 deriving Repr, DecidableEq
 
 /-- the part of `XSLTEngineImpl` the property is about -/
@@ -423,6 +425,35 @@ def St.checkDefaultNamespace (s : St) (name : QN) (uri : String) : St :=
     | some r => if uri ≠ r then s.addResultAttribute ⟨"", "xmlns"⟩ uri else s
     | none => s
   else s
+
+inductive CBranch where
+  | notPending | plain | bound | asIsUnbound | declared | rebound | invented
+deriving DecidableEq, Repr
+
+/-- `cloneToResultTree(node, ATTRIBUTE_NODE, …)` (XSLTEngineImpl.cpp:2207-2231): `xsl:copy-of` / `xsl:copy` of an
+attribute node (`name`, namespace `uri`, `value`) taken without its element.  The code first analysed adds the source
+qname as it is (`.asIsUnbound` = its prefix does not mean `uri` in the result: known finding); with
+`C14-copied-attribute-prefix-declared.diff` a free prefix is declared, a prefix that means something else is replaced
+by one bound to `uri` or by an invented, declared one. -/
+def St.cloneAttribute (s : St) (name : QN) (uri value : String) : St × CBranch :=
+  if !s.isElementPending then (s, .notPending)
+  else if uri = "" || name.pfx = "" || uri = xmlURI then (s.addResultAttribute name value true, .plain)
+  else if !s.v.copyAttrNs then
+    (s.addResultAttribute name value true, if s.resultNs name.pfx = some uri then .bound else .asIsUnbound)
+  else
+    match s.resultNs name.pfx with
+    | none => ((s.addResultAttribute ⟨"xmlns", name.pfx⟩ uri).addResultAttribute name value true, .declared)
+    | some b =>
+      if b = uri then (s.addResultAttribute name value true, .bound)
+      else
+        match s.resultPrefix uri with
+        | some p2 =>
+          if p2 ≠ "" then (s.addResultAttribute ⟨p2, name.loc⟩ value, .rebound)
+          else ((s.unique.2.addResultAttribute ⟨"xmlns", s.unique.1⟩ uri).addResultAttribute ⟨s.unique.1, name.loc⟩ value,
+                .invented)
+        | none =>
+          ((s.unique.2.addResultAttribute ⟨"xmlns", s.unique.1⟩ uri).addResultAttribute ⟨s.unique.1, name.loc⟩ value,
+            .invented)
 
 /-- `cloneToResultTree(node, ELEMENT_NODE, …, shouldCloneAttributes, …)` for one source element -/
 def St.cloneElementStart (s : St) (name : QN) (uri : String) (chain : List (List Att))
